@@ -136,10 +136,13 @@ Definition pick_sorted (et : Q) (l : list (nat * ent)) : option (nat * ent) :=
 Definition pick_min (et : Q) (l : list (nat * ent)) : option (nat * ent) :=
   first_min ikey_ltb (fun x => eligible et (snd x)) l.
 
-(* now = max(time.time(), self._last_changed_time)   (since /repo 5c0d808) *)
-Definition eff_now (clock last_changed : Q) : Q := qmax clock last_changed.
-(* earlier_than = now - age *)
+(* now = time.time(); earlier_than = now - age *)
 Definition earlier_than (c : cfg) (now age : Q) : Q := fsub c now age.
+(* if age <= 0: earlier_than = max(earlier_than, self._last_changed_time)      (/repo 5c0d808, ed9e461) *)
+Definition threshold_adj (et age last_changed : Q) : Q :=
+  if Qle_bool age 0 then qmax et last_changed else et.
+Definition threshold (c : cfg) (now age last_changed : Q) : Q :=
+  threshold_adj (earlier_than c now age) age last_changed.
 
 (* ------------------------------------------------------------------ results *)
 Inductive res (T : Type) : Type :=
@@ -251,7 +254,7 @@ Definition tagged (order : list nat) (s : st) : list (nat * ent) :=
   map (fun i => (i, nth i (ents s) new_ent)) order.
 Definition change (c : cfg) (now age : Q) (order : list nat) (s : st) : res (option nat) :=
   if order_ok order s then
-    Ok (option_map fst (pick_sorted (earlier_than c (eff_now now (last s)) age) (tagged order s)))
+    Ok (option_map fst (pick_sorted (threshold c now age (last s)) (tagged order s)))
   else Bad.
 
 (* ------------------------------------------------------------------ operations and the runner *)
@@ -420,7 +423,7 @@ Definition run (x : sx) : sx :=
   | L [A 0%N; L [now; lst]; age; tab] =>
     match un_q now, un_q lst, un_q age, un_list un_tab_ent tab with
     | Some now, Some lst, Some age, Some l =>
-      let et := earlier_than (cfg_float 0 0) (eff_now now lst) age in
+      let et := threshold (cfg_float 0 0) now age lst in
       L [sx_pick (option_map fst (pick_sorted et (number 0 l)));
          sx_pick (option_map fst (pick_min et (number 0 l)))]
     | _, _, _, _ => sx_malformed
